@@ -1,6 +1,6 @@
 SPECIFICATION Spec
 CONSTANTS
-  MaxTok = 4
+  MaxTok = 5
   Alphabet = {"ident", "delim", "star", "open", "close", "lbrace", "rbrace", "colon", "semi", "atrl", "atdl", "atun", "ws", "comment", "cpname", "cdo", "other"}
   Modes = {TRUE, FALSE}
   Emit = TRUE
